@@ -428,7 +428,7 @@ pub fn generate(rng: &mut Rng, tier: Tier, long_uptime: bool) -> Scenario {
             let chunks = rng.range(1, 6);
             for c in 0..chunks {
                 desc.seed = rng.u64();
-                ops.push(Op::Gen { n: 0, g: desc, skip: 0, len: (total / chunks) as u64, fault: None, every: 0, reset_every: 0 });
+                ops.push(Op::Gen { n: 0, g: desc, skip: 0, len: (total / chunks) as u64, fault: None, every: 0, reset_every: 0, clone_every: 0 });
                 if c + 1 < chunks || rng.chance(0.5) {
                     let k = rng.range(1, 3);
                     feed_ticks(&mut ops, &mut w, &plan, rng, k, &mut shifts);
